@@ -12,6 +12,7 @@ def harnesses(tier):
     H.append(BHarness('X3_left_vacuum_joins_fan', 'c11_exact.cpp', 'h_x3_left_vacuum_joins_fan', what='vacuum|gas sampling joins the right rarefaction fan', bound=DOM, **COMMON))
     H.append(BHarness('X3_vacgen_joins_fan', 'c11_exact.cpp', 'h_x3_vacgen_joins_fan', what='vacuum generation: on each side of the generated vacuum the solution is the one-sided vacuum solution of that side; vacuum exactly between the two fronts', bound=DOM + '; SL<SR', **COMMON))
     H.append(BHarness('X4_shapes', 'c11_exact.cpp', 'h_x4_shapes', what='post-shock density rho*(P*/P+(g-1)/(g+1))/((g-1)/(g+1)*P*/P+1), shock speed, isentropic middle state rho*(P*/P)^(1/g), fan density/pressure as powers 2/(g-1), 2g/(g-1) of one common base, fan velocity formula: equal as terms to reference formulas written from the textbook', bound=DOM, **COMMON))
+    H.append(BHarness('X1_dispatch', 'c11_exact.cpp', 'h_x1_dispatch', what='regime partition: sample_right_state / sample_left_state select the shock routine iff P* > P_side and the rarefaction routine otherwise, and return exactly what the selected routine returns', bound=DOM, **COMMON))
     return H
 
 def run(tier, only=None):
